@@ -4,10 +4,11 @@
 cd "$(dirname "$0")/.."
 diff=$(realpath "$1"); shift
 wt=/tmp/verif-mut-$$
+tag=$(printf %s "$wt" | sha1sum | cut -c1-8)
 git -C /repo worktree add -q --detach "$wt" HEAD || exit 2
 git -C "$wt" apply "$diff" || { git -C /repo worktree remove --force "$wt"; exit 2; }
 for p in "$@"; do
   echo "== $p"; VERIF_REPO="$wt" timeout 1200 ./check "$p" --skip-proof --evidence-dir /tmp/verif-mut-evidence-$$ 2>&1 | grep -E "VIOLATION|KNOWN|violations" | head -3
 done
 git -C /repo worktree remove --force "$wt"; git -C /repo worktree prune
-rm -rf /tmp/verif-mut-evidence-$$ .cache/harness-* .cache/target-*-????????
+rm -rf /tmp/verif-mut-evidence-$$ .cache/harness-$tag .cache/target-*-$tag
